@@ -136,10 +136,12 @@ type sliceF struct {
 	get  func(core.Transaction) *[]felt.Felt
 }
 
-func inv(tx core.Transaction) *core.InvokeTransaction         { return tx.(*core.InvokeTransaction) }
-func dcl(tx core.Transaction) *core.DeclareTransaction        { return tx.(*core.DeclareTransaction) }
-func dpa(tx core.Transaction) *core.DeployAccountTransaction  { return tx.(*core.DeployAccountTransaction) }
-func l1h(tx core.Transaction) *core.L1HandlerTransaction      { return tx.(*core.L1HandlerTransaction) }
+func inv(tx core.Transaction) *core.InvokeTransaction  { return tx.(*core.InvokeTransaction) }
+func dcl(tx core.Transaction) *core.DeclareTransaction { return tx.(*core.DeclareTransaction) }
+func dpa(tx core.Transaction) *core.DeployAccountTransaction {
+	return tx.(*core.DeployAccountTransaction)
+}
+func l1h(tx core.Transaction) *core.L1HandlerTransaction { return tx.(*core.L1HandlerTransaction) }
 
 // committedFields is Appendix A: the hashed felt / felt-slice fields per kind, plus whether
 // the v3 block (tip, resource bounds, DA modes) applies.
